@@ -38,6 +38,18 @@ def _ctx():
     return CUR
 
 
+# ----------------------------------------------------------------------------- type tests
+def isfloat(x) -> bool:
+    """A concrete Python/numpy float (never a symbolic scalar: their __class__ is spoofed)."""
+    t = type(x)
+    return t is float or (t is not SymReal and t is not SymComplex and t is not SymBool and isinstance(x, np.floating))
+
+
+def iscomplex(x) -> bool:
+    t = type(x)
+    return t is complex or (t is not SymReal and t is not SymComplex and t is not SymBool and isinstance(x, np.complexfloating))
+
+
 # ----------------------------------------------------------------------------- lifting
 def is_sym(x) -> bool:
     t = type(x)
@@ -57,7 +69,7 @@ def lift_num(x):
         return z3.RealVal(x)
     if isinstance(x, (np.integer,)):
         return z3.RealVal(int(x))
-    if isinstance(x, (float, np.floating)):
+    if isfloat(x):
         f = float(x)
         if math.isnan(f) or math.isinf(f):
             raise EngineError(f"non-finite constant {f!r} in symbolic arithmetic")
@@ -71,11 +83,11 @@ def lift_num(x):
 
 
 def _is_inf(x) -> bool:
-    return isinstance(x, (float, np.floating)) and math.isinf(float(x))
+    return isfloat(x) and math.isinf(float(x))
 
 
 def _is_nan(x) -> bool:
-    return isinstance(x, (float, np.floating)) and math.isnan(float(x))
+    return isfloat(x) and math.isnan(float(x))
 
 
 def _numlike(x) -> bool:
@@ -190,7 +202,7 @@ class SymReal:
     def _bin(self, o, f, swap=False):
         if type(o) is SymComplex:
             return NotImplemented
-        if isinstance(o, complex) and not isinstance(o, (float, int)):
+        if iscomplex(o):
             a, b = SymComplex(self, 0.0), SymComplex(o.real, o.imag)
             return f(b, a) if swap else f(a, b)
         if isinstance(o, np.ndarray) and o.shape != ():
@@ -256,9 +268,9 @@ class SymReal:
         return SymReal(z3.If(self.t >= 0, self.t, -self.t))
 
     def __pow__(self, o):
-        if type(o) is SymComplex or isinstance(o, complex) and not isinstance(o, (int, float)):
+        if type(o) is SymComplex or iscomplex(o):
             return NotImplemented
-        if isinstance(o, (int, np.integer)) or (isinstance(o, (float, np.floating)) and float(o).is_integer()):
+        if isinstance(o, (int, np.integer)) or (isfloat(o) and float(o).is_integer()):
             n = int(o)
             if n == 0:
                 return SymReal(z3.RealVal(1))
@@ -270,7 +282,7 @@ class SymReal:
                 _ctx().assume_nonzero(base)
                 r = 1 / r
             return SymReal(r)
-        if isinstance(o, (float, np.floating)) and float(o) == 0.5:
+        if isfloat(o) and float(o) == 0.5:
             return self.sqrt()
         return SymReal(UF["pow"](self.t, lift_num(o)))
 
@@ -324,7 +336,7 @@ class SymReal:
 
     # -- numpy object-dtype method protocol (np.sqrt(obj_array) calls x.sqrt())
     def _ufn(self, name):
-        return SymReal(UF[name](self.t))
+        return _fn(name, self)
 
     def exp(self):
         return self._ufn("exp")
@@ -411,7 +423,7 @@ def _re_im(x):
         return x.re, x.im
     if t is SymReal:
         return x, 0.0
-    if isinstance(x, complex) or isinstance(x, np.complexfloating):
+    if iscomplex(x):
         return float(x.real), float(x.imag)
     if _numlike(x):
         return x, 0.0
@@ -535,12 +547,12 @@ def _fn(name, x):
             return SymReal(z3.RealVal(1))
         if name in ("sin", "erf") and z3.is_rational_value(s) and s.numerator_as_long() == 0:
             return SymReal(z3.RealVal(0))
-        return SymReal(UF[name](x.t))
+        return SymReal(UF[name](z3.simplify(x.t, som=True)))
     if type(x) is SymComplex:
         if name == "exp":
             return x.exp()
         raise EngineError(f"{name} of a symbolic complex")
-    if isinstance(x, (complex, np.complexfloating)):
+    if iscomplex(x):
         import cmath
 
         return getattr(cmath, name)(complex(x))
@@ -653,7 +665,7 @@ class SArr(np.ndarray):
         out = np.empty(self.shape, dtype=object)
         for idx in np.ndindex(self.shape):
             v = self[idx]
-            out[idx] = v.real if is_sym(v) or isinstance(v, complex) else v
+            out[idx] = v.real if is_sym(v) or iscomplex(v) else v
         return out.view(SArr)
 
     @property
@@ -661,7 +673,7 @@ class SArr(np.ndarray):
         out = np.empty(self.shape, dtype=object)
         for idx in np.ndindex(self.shape):
             v = self[idx]
-            out[idx] = v.imag if is_sym(v) or isinstance(v, complex) else 0.0
+            out[idx] = v.imag if is_sym(v) or iscomplex(v) else 0.0
         return out.view(SArr)
 
     def __deepcopy__(self, memo):
